@@ -15,6 +15,12 @@ import (
 const (
 	acpiRev1     uint8 = 0
 	acpiRev2Plus uint8 = 2
+
+	// extRSDPLength is the size in bytes of the ACPI 2.0+ root system
+	// descriptor pointer that the extended checksum covers. It must not be
+	// derived from unsafe.Sizeof(table.ExtRSDPDescriptor{}) as Go pads that
+	// struct to 40 bytes.
+	extRSDPLength uint32 = 36
 )
 
 var (
@@ -233,7 +239,7 @@ checkNextBlock:
 		// System uses ACPI revision > 1 and provides an extended RSDP
 		// which can be accessed at the same place.
 		rsdp2 = (*table.ExtRSDPDescriptor)(unsafe.Pointer(curPtr))
-		if !validTable(curPtr, uint32(unsafe.Sizeof(*rsdp2))) {
+		if !validTable(curPtr, extRSDPLength) {
 			continue
 		}
 
